@@ -142,6 +142,19 @@ func raceMain(a []string) {
 						record("sync", db.Sync())
 					case x < 97:
 						b := db.NewBatch(kv.DefaultBatchOptions)
+						if r.Intn(4) == 0 {
+							// a batch larger than the data-file limit in which one key is staged again and again with growing
+							// values: the mid-batch flush is triggered by a RE-put of a staged key, while the other clients
+							// queue behind the batch's lock
+							k1 := keys[r.Intn(len(keys))]
+							for i := 0; i < 6; i++ {
+								kk := k1
+								if i%2 == 1 {
+									kk = keys[r.Intn(len(keys))]
+								}
+								_ = b.Put(kk, append(append([]byte{}, kk...), patBytes(uint64(r.Intn(1000)), 3000+i*1500)...))
+							}
+						}
 						for i := 0; i < 1+r.Intn(3); i++ {
 							kk := keys[r.Intn(len(keys))]
 							if r.Intn(3) == 0 {
@@ -164,11 +177,20 @@ func raceMain(a []string) {
 	stuck := false
 	last := int64(-1)
 	tick := time.NewTicker(5 * time.Second)
+	// every data file of an open database stays open: a long run ends early, well below the descriptor limit of the
+	// process (an environment limit, not a property of the engine)
+	files := time.NewTicker(100 * time.Millisecond)
+	endedEarly := false
 loop:
 	for {
 		select {
 		case <-deadline:
 			break loop
+		case <-files.C:
+			if dirEntries(dir) > maxStressFiles {
+				endedEarly = true
+				break loop
+			}
 		case <-tick.C:
 			p := atomic.LoadInt64(&progress)
 			if p == last {
@@ -186,7 +208,7 @@ loop:
 	case <-time.After(20 * time.Second):
 		stuck = true
 	}
-	out := map[string]interface{}{"counts": counts, "errors": errs, "panics": panics, "stuck": stuck}
+	out := map[string]interface{}{"counts": counts, "errors": errs, "panics": panics, "stuck": stuck, "ended_early": endedEarly}
 	if stuck {
 		buf := make([]byte, 1<<20)
 		n := runtime.Stack(buf, true)
@@ -210,6 +232,20 @@ loop:
 		}
 	}
 	json.NewEncoder(os.Stdout).Encode(out)
+}
+
+// maxStressFiles: a stress run stops writing (ends early) once its data directory holds this many files; the open
+// database keeps a descriptor per data file and the process limit is an environment limit (ulimit -n)
+const maxStressFiles = 6000
+
+func dirEntries(dir string) int {
+	f, err := os.Open(dir)
+	if err != nil {
+		return 0
+	}
+	defer f.Close()
+	names, _ := f.Readdirnames(-1)
+	return len(names)
 }
 
 // hotMain: one writer of write-once keys with tiny data files (almost every Put rotates) and many
@@ -316,7 +352,7 @@ func hotMain(base string, secs float64, ng, idx, iot int, backups bool) {
 	nb := int64(0)
 	if backups {
 		deadline := time.Now().Add(time.Duration(secs * float64(time.Second)))
-		for time.Now().Before(deadline) {
+		for time.Now().Before(deadline) && dirEntries(o.DirPath) <= maxStressFiles {
 			bdir := filepath.Join(base, fmt.Sprintf("b%d", nb))
 			if err := db.Backup(bdir); err != nil {
 				mu.Lock()
@@ -328,7 +364,10 @@ func hotMain(base string, secs float64, ng, idx, iot int, backups bool) {
 			time.Sleep(3 * time.Millisecond)
 		}
 	} else {
-		time.Sleep(time.Duration(secs * float64(time.Second)))
+		deadline := time.Now().Add(time.Duration(secs * float64(time.Second)))
+		for time.Now().Before(deadline) && dirEntries(o.DirPath) <= maxStressFiles {
+			time.Sleep(50 * time.Millisecond)
+		}
 	}
 	close(stop)
 	wg.Wait()
